@@ -450,12 +450,44 @@ def run_protos(ck):
         except Exception as e:  # noqa: BLE001
             return "not JSON: %s" % e
     rdbad = []
+    repeated, two_readings = [], []
     for c in ok:
         want = strict_pairs(c)
         if isinstance(want, list) and len(set(k for k, _ in want)) < len(want):
-            continue    # duplicate names: outside the property's quantifier (a Go map keeps the last value)
+            # a name twice in the stored text (model/TwoReaders.v): SQL reads the FIRST member of a name (label_of), the Go map of
+            # /series keeps the LAST (go_read); the class `ambiguous` = some name whose first and last member differ
+            doc_order = [(k.encode("utf-8", "surrogatepass").hex(), v.encode("utf-8", "surrogatepass").hex())
+                         for k, v in json.loads(unhex(c["doc"]).decode("utf-8"), object_pairs_hook=lambda ps: ps)]
+            first, last = {}, {}
+            for k, v in doc_order:
+                first.setdefault(k, v)
+                last[k] = v
+            repeated.append(c)
+            if c.get("rd_err") or sorted(map(tuple, c.get("rd") or [])) != sorted(last.items()):
+                rdbad.append(c)
+            elif first != last:
+                c["two_readings"] = {"name": unhex(next(k for k in first if first[k] != last[k])).decode("utf-8", "replace"),
+                                     "SQL reads (first member)": unhex(next(first[k] for k in first if first[k] != last[k])).decode("utf-8", "replace"),
+                                     "/series shows (last member)": unhex(next(last[k] for k in first if first[k] != last[k])).decode("utf-8", "replace")}
+                two_readings.append(c)
+            continue
         if c.get("rd_err") or sorted(map(tuple, c.get("rd") or [])) != want:
             rdbad.append(c)
+    ck.extra["protos_repeated_label_names"] = {"documents with a name twice": len(repeated), "of them read differently by SQL and by /series (class ambiguous)": len(two_readings)}
+    ck.obligation("requests whose label list has a name twice were generated (Datadog logs: two tags of one name, a tag named like a field), some with two different values",
+                  len(repeated) >= 5 and len(two_readings) >= 2, "%d documents with a repeated name, %d ambiguous" % (len(repeated), len(two_readings)))
+    if two_readings:
+        known = [c for c in two_readings if c["wire"]["kind"] == "dd_logs"] if "repeated-label-name-two-readings" in ck.known_findings() else []
+        other = [c for c in two_readings if c not in known]
+        if known:
+            c = min(known, key=size)
+            ck.report_known("repeated-label-name-two-readings", "%d of %d Datadog logs requests with a repeated label name store a document two readers read differently (exactly the class TwoReaders.ambiguous; %d documents with a repeated name and equal values are read alike), e.g. %s: %s" % (
+                len(known), sum(1 for x in repeated if x["wire"]["kind"] == "dd_logs"), len(repeated) - len(two_readings), json.dumps(show_proto(c))[:300], json.dumps(c["two_readings"])))
+        if other and not ck.violations:
+            c = min(other, key=size)
+            ck.violation({"property": "C04", "part": "protos", "kind": "the stored label document has a name twice with different values: the SQL matchers read the first member, /series shows the last (outside the recorded finding)",
+                          "case": c, "readable": show_proto(c), "two readings": c["two_readings"], "explanation": "ambiguous (model/TwoReaders.v): label_of <> go_read",
+                          "replay": "seriesid --mode protos --cases <file with the line {\"id\": 0, \"wire\": <the wire member of this case>}>  (or --seed %s --n %d, case id %d)" % (ck.seed, n, c["id"])})
     ck.obligation("spec: the reader's decoder of stored label documents (storedLabels) returns exactly the members of the labels text these decoders stored (%d documents)" % len(ok),
                   not rdbad, "case ids: %s" % [(c["id"], c.get("rd_err")) for c in rdbad[:5]])
     if rdbad and not ck.violations:
